@@ -250,6 +250,14 @@ func restFamily(alg byte, thorough bool) [][]byte {
 			for _, bd := range bad {
 				add(bd, enc(k))
 			}
+			// long runs of ignorable code points before the deciding one (look-ahead distance is unbounded)
+			for _, n := range []int{7, 8, 9, 16, 33, 64, 257} {
+				var run []rune
+				for i := 0; i < n; i++ {
+					run = append(run, ign[i%3])
+				}
+				add(enc(run...), enc(k))
+			}
 		}
 	case 'S':
 		reps := algReps('S')
@@ -268,6 +276,13 @@ func restFamily(alg byte, thorough bool) [][]byte {
 			for _, bd := range bad[:3] {
 				add(bd, enc(r))
 				add(enc(skip[3]), bd, enc(r))
+			}
+			for _, n := range []int{7, 8, 9, 16, 33, 64, 257} {
+				var run []rune
+				for i := 0; i < n; i++ {
+					run = append(run, skip[i%len(skip)])
+				}
+				add(enc(run...), enc(r))
 			}
 		}
 	case 'L':
@@ -293,6 +308,18 @@ func restFamily(alg byte, thorough bool) [][]byte {
 			add(bd, enc(nu))
 		}
 		add(enc(cm), bad[0], enc(nu))
+		for _, n := range []int{7, 8, 9, 16, 33, 64, 257} {
+			var run []rune
+			for i := 0; i < n; i++ {
+				if i%3 == 2 {
+					run = append(run, zwj)
+				} else {
+					run = append(run, cm)
+				}
+			}
+			add(enc(run...), enc(nu))
+			add(enc(run...), enc(al))
+		}
 		if thorough {
 			for _, r := range algReps('L') {
 				add(enc(r))
@@ -361,8 +388,10 @@ func stageE3(d *driver, thorough bool, algSel map[string]bool) stageResult {
 					if rb == nil {
 						rb = []byte{}
 					}
+					enter(append(enc(r), rest...), "transition function "+a.op+fmt.Sprintf(" from state %d", st))
 					resB := protect(func() string { return a.f(st, r, rb, "") })
 					resS := protect(func() string { return a.f(st, r, nil, string(rest)) })
+					leave()
 					emit(op, resB)
 					if resS != resB {
 						s.add(op, resB, resS, "byte form vs string form of the real transition differ")
@@ -637,6 +666,8 @@ func e5Ops(amb int, b []byte) (ops, real []string, realStr []string) {
 	}
 	add(fmt.Sprintf("chain st %d %s", amb, h), realChain("st", b, false), "")
 	add(fmt.Sprintf("chain sts %d %s", amb, h), realChain("st", b, true), "")
+	enter(b, "StringWidth/GraphemeClusterCount/ReverseString/HasTrailingLineBreak")
+	defer leave()
 	add(fmt.Sprintf("sw %d %s", amb, h), protect(func() string { return fmt.Sprint(u.StringWidth(string(b))) }), "")
 	add("gcc "+h, protect(func() string { return fmt.Sprint(u.GraphemeClusterCount(string(b))) }), "")
 	add("rev "+h, protect(func() string { return hx([]byte(u.ReverseString(string(b)))) }), "")
@@ -880,6 +911,12 @@ func stageSpec(d *driver, cs *caseSource, kindsWanted []string, withStep bool, t
 	}
 	var ops []string
 	var items []item
+	type pend struct {
+		it   item
+		str  bool
+		step bool
+	}
+	var pending []pend
 	flush := func() {
 		if len(ops) == 0 {
 			return
@@ -891,12 +928,12 @@ func stageSpec(d *driver, cs *caseSource, kindsWanted []string, withStep bool, t
 			for _, str := range []bool{false, true} {
 				s.Evaluations++
 				if rv := realVerdicts(it.kind, it.b, str); rv != sp {
-					s.add(ops[i], rv, sp, fmt.Sprintf("%s string-form=%v", kindName[it.kind], str))
+					pending = append(pending, pend{it, str, false})
 				}
 				if withStep {
 					s.Evaluations++
 					if sv := stepVerdicts(alg, it.b, str); !matchesSpec(sv, sp) {
-						s.add(ops[i], sv, sp, fmt.Sprintf("Step string-form=%v, projection %s", str, alg))
+						pending = append(pending, pend{it, str, true})
 					}
 				}
 			}
@@ -905,6 +942,30 @@ func stageSpec(d *driver, cs *caseSource, kindsWanted []string, withStep bool, t
 			s.Samples = append(s.Samples, ops[0]+" => "+specs[0])
 		}
 		ops, items = ops[:0], items[:0]
+		// report (and, for the first few, shrink) the disagreements with the spec
+		for _, p := range pending {
+			alg := specAlg[p.it.kind]
+			fails := func(x []byte) bool {
+				sp := d.ask("spec " + alg + " " + hx(x))
+				if p.step {
+					return !matchesSpec(stepVerdicts(alg, x, p.str), sp)
+				}
+				return realVerdicts(p.it.kind, x, p.str) != sp
+			}
+			b := p.it.b
+			if s.MismatchCount < 12 {
+				b = shrink(b, fails)
+			}
+			sp := d.ask("spec " + alg + " " + hx(b))
+			who := kindName[p.it.kind]
+			got := realVerdicts(p.it.kind, b, p.str)
+			if p.step {
+				who = "Step (projection " + alg + ")"
+				got = stepVerdicts(alg, b, p.str)
+			}
+			s.add("spec "+alg+" "+hx(b), got, sp, fmt.Sprintf("%s string-form=%v input %+q", who, p.str, string(b)))
+		}
+		pending = pending[:0]
 	}
 	handle := func(b []byte, ks []string) {
 		if len(b) == 0 {
